@@ -67,6 +67,7 @@ func plans(id, tier string) (Plan, bool) {
 			{Pkg: pkgV2, Harness: "c04_maporder_corpus", Instr: "v2map", Shards: pick(8, 16)},
 			{Pkg: pkgV2, Harness: "c04_history", Shards: pick(4, 12)},
 			{Pkg: pkgV2, Harness: "c04_config", Shards: pick(4, 8)},
+			{Pkg: pkgV2, Harness: "c04_trace", Shards: pick(4, 8)},
 			{Pkg: pkgV2, Harness: "c04_processes", Shards: 1, MaxProcs: 4},
 		}}, true
 	case "C05":
@@ -110,10 +111,10 @@ func plans(id, tier string) (Plan, bool) {
 			{Pkg: pkgV2, Harness: "c09_frozen", Params: "mode=small", Shards: pick(4, 8)},
 			{Pkg: pkgV2, Harness: "c09_frozen", Params: "mode=corpus", Shards: pick(8, 16)},
 		}
-		for sc := 0; sc < 4; sc++ {
+		for _, sc := range []int{0, 1, 2, 3, 6, 7} {
 			jobs = append(jobs, Job{Pkg: pkgV2, Harness: "c09_sched", Instr: "v2coarse", Params: fmt.Sprintf("scenario=%d;threads=2;policy=delay;budget=2", sc), Shards: pick(2, 2)})
 		}
-		for sc := 0; sc < pick(2, 4); sc++ {
+		for _, sc := range map[bool][]int{false: {0, 1, 6, 7}, true: {0, 1, 2, 3, 6, 7}}[th] {
 			// every yield site (no calibration filter), one delay
 			jobs = append(jobs, Job{Pkg: pkgV2, Harness: "c09_sched", Instr: "v2coarse", Params: fmt.Sprintf("scenario=%d;threads=2;policy=delay;budget=1;maxsite=100000", sc), Shards: 2})
 		}
